@@ -681,6 +681,16 @@ pub fn gen_prog(rng: &mut ChaCha8Rng) -> (Prog, &'static str) {
             p.obj = DE::Scoped(Agg::Sum, binds.clone(), bx(DE::Mul(bx(DE::Const(var("v"))), bx(DE::Var("x".into(), vec![var("i")])))));
             p.cons.push(DCon { name: Some(("total".into(), vec![])), lhs: DE::Scoped(agg_num, binds, bx(DE::Mul(bx(DE::Const(IExp::Add(bx(var("v")), bx(lit(1))))), bx(DE::Var("x".into(), vec![var("i")]))))), rel: "<=", rhs: DE::Const(var("cap")), binds: vec![] });
             p.decls.push(DDecl { base: "x".into(), idx: vec![var("i")], ty: numeric_ty, binds: vec![Bind { pat: Pat::One("i".into()), iter: Iter::Range(lit(0), IExp::Len("A".into()), false) }] });
+            if rng.gen_bool(0.5) {
+                // a tuple pattern with a single name binds the first component: (v) in enumerate(A)
+                p.cons.push(DCon {
+                    name: Some(("one".into(), vec![])),
+                    lhs: DE::Scoped(Agg::Sum, vec![Bind { pat: Pat::Tuple(vec![Some("v".into())]), iter: Iter::Enumerate(bx(Iter::Name("A".into()))) }], bx(DE::Mul(bx(DE::Const(IExp::Add(bx(var("v")), bx(lit(2))))), bx(DE::Var("x".into(), vec![lit(0)]))))),
+                    rel: "<=",
+                    rhs: DE::Num(60.0),
+                    binds: vec![],
+                });
+            }
             (p, "enumerate+len")
         }
         2 => {
@@ -711,6 +721,18 @@ pub fn gen_prog(rng: &mut ChaCha8Rng) -> (Prog, &'static str) {
             p.obj = DE::Scoped(Agg::Sum, vec![Bind { pat: Pat::One("r".into()), iter: Iter::Range(lit(0), IExp::Len("M".into()), false) }, Bind { pat: Pat::One("c".into()), iter: Iter::Range(lit(0), lit(cols as i64), false) }], bx(DE::Mul(bx(DE::Const(IExp::At("M".into(), vec![var("r"), var("c")]))), bx(DE::Var("y".into(), vec![var("c")])))));
             p.cons.push(DCon { name: None, lhs: DE::Scoped(agg_num, vec![Bind { pat: Pat::Tuple(vec![Some("el".into()), Some("c".into())]), iter: Iter::Enumerate(bx(Iter::Name("R".into()))) }], bx(DE::Mul(bx(DE::Const(var("el"))), bx(DE::Var("y".into(), vec![var("c")]))))), rel: cmp, rhs: DE::Const(IExp::At("R".into(), vec![lit(0)])), binds: vec![Bind { pat: Pat::One("R".into()), iter: Iter::Name("M".into()) }] });
             p.decls.push(DDecl { base: "y".into(), idx: vec![var("c")], ty: numeric_ty, binds: vec![Bind { pat: Pat::One("c".into()), iter: Iter::Range(lit(0), lit(cols as i64), false) }] });
+            if rng.gen_bool(0.5) {
+                // three levels and three indexes: T[i][j][k] with pairwise different entries
+                let t = V::Arr((0..2).map(|i| V::Arr((0..2).map(|j| V::Arr((0..2).map(|k| V::Int(1 + i * 4 + j * 2 + k + rng.gen_range(0..2) * 10)).collect())).collect())).collect());
+                p.consts.push(("T".into(), t));
+                p.cons.push(DCon {
+                    name: Some(("tens".into(), vec![var("i"), var("j")])),
+                    lhs: DE::Mul(bx(DE::Const(IExp::At("T".into(), vec![var("i"), var("j"), lit(0)]))), bx(DE::Var("y".into(), vec![lit(0)]))),
+                    rel: "<=",
+                    rhs: DE::Const(IExp::Add(bx(IExp::At("T".into(), vec![var("i"), var("j"), lit(1)])), bx(lit(50)))),
+                    binds: vec![Bind { pat: Pat::One("i".into()), iter: Iter::Range(lit(0), lit(2), false) }, Bind { pat: Pat::One("j".into()), iter: Iter::Range(lit(0), lit(2), false) }],
+                });
+            }
             (p, "nested-arrays+array-access")
         }
         4 => {
